@@ -14,6 +14,24 @@ import vlib
 BIT = {"agree": 1, "parsed": 2, "consistent": 4, "accepted": 8}
 
 
+def run_list(d, cmd, lst, lp):
+    """vh <cmd> --list: one process for all files; if that process dies (abort / allocation failure are not catchable panics) every file
+    is run in a process of its own and a death is recorded as a panic of the library on that file"""
+    rc, out, err, _ = vlib.run([vlib.VH, cmd, "--list", lp], timeout=600)
+    if rc == 0:
+        return json.loads(out)
+    impl = []
+    for i, item in enumerate(lst):
+        one = os.path.join(d, "one_%s.json" % cmd)
+        json.dump([item], open(one, "w"))
+        rc1, out1, err1, _ = vlib.run([vlib.VH, cmd, "--list", one], timeout=120)
+        try:
+            impl.append(json.loads(out1)[0] if rc1 == 0 else {"panic": True, "process": "died", "stderr": err1[-200:]})
+        except Exception:
+            impl.append({"panic": True, "process": "no output"})
+    return impl
+
+
 def rich_doc(rng):
     """a valid document using optional fields, unknown keys, positional (array) forms of the structs"""
     n_c, n_p = rng.randint(1, 4), rng.randint(1, 6)
@@ -143,10 +161,7 @@ def reader_cases(ctx, seed, count, binpath=None, bin_sample=60):
         lst.append({"file": p})
     lp = os.path.join(d, "list.json")
     json.dump(lst, open(lp, "w"))
-    rc, out, err, _ = vlib.run([vlib.VH, "simpleread", "--list", lp], timeout=600)
-    if rc != 0:
-        raise RuntimeError("vh simpleread failed: %s" % err[-400:])
-    impl = json.loads(out)
+    impl = run_list(d, "simpleread", lst, lp)
     texts = ["(%s, %s)" % (cde.coq(doc), g_expected(e)) for (kind, doc), e in zip(docs, impl)]
     codes = cde.eval_cases(ctx, "simple", "simple_case", "check_simple", texts,
                            header="Require Import Json SimpleRead CorrSimple.\nOpen Scope string_scope.\nOpen Scope list_scope.")
@@ -205,4 +220,126 @@ def classify(recs):
                              "(exit %s, output file %s)" % (b["exit"], "exists" if b["out_exists"] else "absent"), r))
             elif (c & BIT["agree"]) and (c & BIT["accepted"]) and b["exit"] not in (0, 1):
                 viol.append(("C15/C10: a well-formed consistent document ends with exit status %s" % b["exit"], r))
+    return viol, dis, st
+
+
+# ---------------------------------------------------------------- rooms files and the --rooms option (C15)
+
+def rooms_documents(seed, count):
+    rng = random.Random(seed)
+    docs = []
+    kinds = ["delete", "null", "string", "negative", "big_index", "float", "list", "object", "bool"]
+    while len(docs) < count:
+        n = rng.randint(0, 5)
+        base = [{"name": rng.choice(["Saal", "Raum %d ü" % i, ""]), "capacity": rng.choice([0, 1, 5, 5, 8, 12, 30]), "quantity": rng.choice([0, 1, 1, 2, 3, 7])}
+                for i in range(n)]
+        r = rng.random()
+        if r < .3:
+            docs.append(("valid", base))
+        elif r < .45:
+            d = copy.deepcopy(base)
+            for i, k in enumerate(d):
+                if rng.random() < .6:
+                    d[i] = [k["name"], k["capacity"], k["quantity"]] + ([1] if rng.random() < .15 else [])
+                elif rng.random() < .3:
+                    k["extra"] = [None, 1]
+            docs.append(("seq", d))
+        elif r < .65 and base:
+            d = copy.deepcopy(base)
+            k = rng.choice(d)
+            f = rng.choice(["capacity", "quantity"])
+            k[f] = rng.choice([2 ** 64 - 1, 2 ** 64, 2 ** 63, 4000000000, 100000, 100001, 99999, 99993, -1, 2.0, "3"])
+            docs.append(("special", d))
+        else:
+            paths = faults.paths_in(base)
+            if not paths:
+                docs.append(("valid", base))
+                continue
+            try:
+                docs.append(("corrupt", faults.mutate(base, rng.choice(paths), rng.choice(kinds), rng)))
+            except Exception:
+                continue
+    for blob in ([], {}, None, 3, "x", [[]], [None], [{}], {"name": "a", "capacity": 1, "quantity": 1}):
+        docs.append(("top", blob))
+    return docs
+
+
+def rooms_strings(seed, count):
+    rng = random.Random(seed)
+    out = ["", ",", "1,", ",1", "1,,2", "+5", "+", "5,+6", " 5", "5 ", "5, 6", "0", "00", "007,8", "18446744073709551615", "18446744073709551616",
+           "1.5", "a", "1,-2", "٣", "5;6", "1e3", "0x10", "9" * 25]
+    while len(out) < count:
+        n = rng.randint(1, 6)
+        out.append(",".join(str(rng.choice([0, 1, 3, 8, 12, 25, 2 ** 32, 2 ** 64 - 1])) for _ in range(n)))
+    return out[:max(count, 24)]
+
+
+def rooms_cases(ctx, seed, count, binpath, goodfile, bin_sample=40):
+    d = os.path.join(ctx.work, "simple")
+    os.makedirs(d, exist_ok=True)
+    docs = rooms_documents(seed, count)
+    lst = []
+    for i, (kind, doc) in enumerate(docs):
+        p = os.path.join(d, "rooms_%05d.json" % i)
+        with open(p, "w", encoding="utf-8") as f:
+            json.dump(doc, f)
+        lst.append({"file": p})
+    lp = os.path.join(d, "rooms_list.json")
+    json.dump(lst, open(lp, "w"))
+    impl = run_list(d, "roomsread", lst, lp)
+
+    def g_exp(e):
+        if e is None or "err" in e or "panic" in e:
+            return "None"
+        return "(Some [" + "; ".join("(%s, %d%%Z, %d%%Z)" % (cde.cstr(n), c, q) for n, c, q in e["kinds"]) + "])"
+    texts = ["(%s, %s)" % (cde.coq(doc), g_exp(e)) for (kind, doc), e in zip(docs, impl)]
+    header = "Require Import Json SimpleRead CorrSimple.\nOpen Scope string_scope.\nOpen Scope list_scope."
+    codes = cde.eval_cases(ctx, "roomsfile", "rooms_file_case", "check_rooms_file", texts, header=header)
+    recs = [{"kind": k, "doc": doc, "impl": e, "code": c, "file": l["file"], "what": "rooms-file"} for (k, doc), e, c, l in zip(docs, impl, codes, lst)]
+    strs = rooms_strings(seed + 2, 60)
+    stexts = ["(%s, None)" % cde.cstr(s_) for s_ in strs]
+    scodes = cde.eval_cases(ctx, "roomsopt", "rooms_opt_case", "check_rooms_opt", stexts, header=header)
+    srecs = [{"kind": "option", "doc": s_, "impl": None, "code": c, "what": "rooms-option"} for s_, c in zip(strs, scodes)]
+    # the binary: refused with 65 exactly when the model refuses (rooms file: sample + all disagreements; option strings: all)
+    rng = random.Random(seed + 3)
+    sample = set(rng.sample(range(len(recs)), min(bin_sample, len(recs)))) | set([i for i, r in enumerate(recs) if not (r["code"] & 1)][:40])
+    from concurrent.futures import ThreadPoolExecutor
+
+    def work(item):
+        what, i = item
+        if what == "file":
+            args = ["--num-threads", "1", "--rooms-file", recs[i]["file"], goodfile]
+        else:
+            args = ["--num-threads", "1", "--rooms=" + srecs[i]["doc"], goodfile]
+        r = clirun.run_bin(binpath, args, timeout=120)
+        return what, i, (1000 if r["timeout"] else r["rc"]), r["stderr"][-300:]
+    items = [("file", i) for i in sorted(sample)] + [("opt", i) for i in range(len(srecs))]
+    with ThreadPoolExecutor(max_workers=16) as ex:
+        for what, i, rc_, err_ in ex.map(work, items):
+            (recs if what == "file" else srecs)[i]["bin"] = {"exit": rc_, "stderr": err_}
+    return recs, srecs
+
+
+def classify_rooms(recs, srecs):
+    viol, dis = [], []
+    st = Counter()
+    for r in recs + srecs:
+        c = r["code"]
+        st["docs"] += 1
+        st[r["what"] + (":accepted" if c & 2 else ":refused")] += 1
+        if isinstance(r["impl"], dict) and "panic" in r["impl"]:
+            viol.append(("C15: rooms::read panics on a rooms file", r))
+            continue
+        if r["what"] == "rooms-file" and not c & 1:
+            dis.append(r)
+        b = r.get("bin")
+        if not b:
+            continue
+        st["binary_runs"] += 1
+        if b["exit"] in (101, 1000, None) or (b["exit"] or 0) >= 128 or "panicked" in b["stderr"]:
+            viol.append(("C15: the program panics / aborts / hangs on a %s (exit %s; %s)" % (r["what"], b["exit"], b["stderr"][-160:].replace("\n", " ")), r))
+        elif not (c & 2) and b["exit"] != 65 and not (r["what"] == "rooms-option" and b["exit"] == 2 and str(r["doc"]).startswith("-")):
+            viol.append(("C15: a %s the model refuses is not refused with status 65 (exit %s)" % (r["what"], b["exit"]), r))
+        elif (c & 2) and b["exit"] not in (0, 1):
+            viol.append(("C15: a well-formed %s ends with exit status %s" % (r["what"], b["exit"]), r))
     return viol, dis, st
